@@ -15,6 +15,10 @@
 // reload through the real loader (policy.StateMetadata.Get*Metadata) and, for
 // the legacy schema, its migration (real loader with migrate=true and
 // migrations.Migrate*V01ToV02 directly) must answer the same to every query.
+//
+// A second, small search (lane G, at the end of the file) drives the real
+// repository API (gittuf.Repository) on real git repositories and checks, with
+// git plumbing, that user rule names stay unique across all rule files.
 package c13
 
 import (
@@ -682,8 +686,6 @@ func principalsListString(l []tuf.Principal, err error) string {
 	sort.Strings(s)
 	return strings.Join(s, ";")
 }
-
-type idSet interface{ Contents() []string }
 
 func setString(has bool, c []string) string {
 	if !has {
